@@ -50,7 +50,7 @@ FROM_AST_PY = REPO / "src/py_gql/sdl/schema_from_ast.py"
 CFG_KEYS = ["keepAllTypes", "deepClone", "accumulateBusted", "cloneSchemaDres",
             "extObjDres", "extFieldSub", "extFieldPy", "extIfaceRtype", "extUnionDesc", "extUnionRtype",
             "extArgPy", "extInputPy", "extKeepAll", "extSchemaDres", "extInputFieldExtended", "cloneRegsDeep",
-            "cloneRegsFiltered", "cloneRegsByValue", "extKeepRegs"]
+            "cloneRegsFiltered", "cloneRegsByValue", "extKeepRegs", "extLeafCopied"]
 
 
 def read_cfg():
@@ -161,6 +161,28 @@ def read_cfg():
         "extArgPy": "python_name" in kw["Argument"],
         "extInputPy": "python_name" in kw["InputField"],
     })
+    # leaf types on extension: rebuilt as plain ScalarType(...) / EnumType(...) (the class of a subclass instance is lost)
+    # or copied with copy.copy (T9)
+    leaf = {}
+    for n in ast.walk(btree):
+        if isinstance(n, ast.FunctionDef) and n.name in ("_extend_scalar_type", "_extend_enum_type"):
+            cls = "ScalarType" if n.name == "_extend_scalar_type" else "EnumType"
+            arg = n.args.args[1].arg
+            calls = [c for c in ast.walk(n) if isinstance(c, ast.Call)]
+            rebuilt = any(isinstance(c.func, ast.Name) and c.func.id == cls for c in calls)
+            copied = any(isinstance(c.func, ast.Attribute) and c.func.attr == "copy" and isinstance(c.func.value, ast.Name)
+                         and c.func.value.id == "copy" and len(c.args) == 1 and isinstance(c.args[0], ast.Name) and c.args[0].id == arg
+                         for c in calls)
+            if rebuilt == copied:
+                raise ValueError("%s: neither a plain %s(...) rebuild nor copy.copy(%s)" % (n.name, cls, arg))
+            if copied and cls == "EnumType" and not any(isinstance(c.func, ast.Attribute) and c.func.attr == "_set_values" for c in calls):
+                raise ValueError("_extend_enum_type: copied enum without _set_values(values)")
+            leaf[cls] = copied
+    if set(leaf) != {"ScalarType", "EnumType"}:
+        raise ValueError("_extend_scalar_type / _extend_enum_type not found")
+    if leaf["ScalarType"] != leaf["EnumType"]:
+        raise ValueError("_extend_scalar_type and _extend_enum_type differ in how they derive the new type object (one flag in the model)")
+    cfg["extLeafCopied"] = leaf["ScalarType"]
     # attributes that MUST be copied for the model to be right (always copied today)
     for cls, ks in (("Field", {"description", "deprecation_reason", "resolver", "args"}),
                     ("Argument", {"default_value", "description"}), ("InputField", {"default_value", "description"}),
@@ -257,7 +279,7 @@ def gen_sdir(rng, schema):
     return {"k": "sdir", "drop": [list(x) for x in drop], "wrap": [list(x) for x in wrap]}
 
 
-def gen_ext(rng, schema, n):
+def gen_ext(rng, schema, n, force_wrapdir=False):
     """Structured extension document (also rendered to SDL)."""
     from py_gql.schema import InterfaceType, ObjectType
     names = live_names(schema)
@@ -289,9 +311,11 @@ def gen_ext(rng, schema, n):
             {"name": u + "z_val", "ty": ty("Int"), "args": []},
             {"name": "z_ref", "ty": ty(rng.choice(out_pool + [zed])), "args": [{"name": u + "z_arg", "ty": ty("Int")}] if rng.random() < 0.5 else []}]})
         out_pool = out_pool + [zed]
+    wrap_targets = []
     if names["object"] and rng.random() < 0.6:
         o = pick(names["object"])
         ext["fields"].setdefault(o, []).append({"name": "%sext_f%d" % (u, n), "ty": ty(rng.choice(out_pool)), "args": []})
+        wrap_targets.append([o, "%sext_f%d" % (u, n)])
     if names["interface"] and rng.random() < 0.35:
         i = pick(names["interface"])
         f = {"name": "%sext_if%d" % (u, n), "ty": ty(rng.choice(W.SCALARS)), "args": []}
@@ -312,7 +336,14 @@ def gen_ext(rng, schema, n):
         ext["new_dirs"].append({"name": "%sext_dir%d" % (u, n), "args": [{"name": u + "d_arg", "ty": ty("Int")}], "locs": ["FIELD"]})
     if not any(ext[k] for k in ext):
         ext["new_types"].append({"kind": "object", "name": "Zed%d" % n, "fields": [{"name": "z_val", "ty": ty("Int"), "args": []}]})
+    if rng.random() < 0.45 or force_wrapdir:
+        # `extend_schema(…, schema_directives=[Wrap])`: the extension document uses a schema directive (`@c14wrap`, a resolver
+        # wrapper) on fields it ADDS — or on none; fields of the source that carry it were wrapped when they were added
+        ext["wrapdir"] = {"define": WRAPDIR not in schema.directives, "targets": wrap_targets if rng.random() < 0.8 else []}
     return ext
+
+
+WRAPDIR = "c14wrap"
 
 
 def ty_sdl(t):
@@ -322,15 +353,18 @@ def ty_sdl(t):
 def ext_sdl(ext, schema):
     from py_gql.schema import InputObjectType, InterfaceType
     parts = []
+    wd = ext.get("wrapdir") or {"targets": []}
+    targets = {tuple(x) for x in wd["targets"]}
 
-    def fields(fs):
-        return "{ " + " ".join("%s%s: %s" % (f["name"], ("(" + ", ".join("%s: %s" % (a["name"], ty_sdl(a["ty"])) for a in f["args"]) + ")")
-                                             if f.get("args") else "", ty_sdl(f["ty"])) for f in fs) + " }"
+    def fields(fs, owner=None):
+        return "{ " + " ".join("%s%s: %s%s" % (f["name"], ("(" + ", ".join("%s: %s" % (a["name"], ty_sdl(a["ty"])) for a in f["args"]) + ")")
+                                               if f.get("args") else "", ty_sdl(f["ty"]),
+                                               " @" + WRAPDIR if (owner, f["name"]) in targets else "") for f in fs) + " }"
     for t in ext["new_types"]:
         parts.append("type %s %s" % (t["name"], fields(t["fields"])))
     for n, fs in ext["fields"].items():
         kw = "interface" if isinstance(schema.types[n], InterfaceType) else "type"
-        parts.append("extend %s %s %s" % (kw, n, fields(fs)))
+        parts.append("extend %s %s %s" % (kw, n, fields(fs, n)))
     for n, fs in ext["input_fields"].items():
         parts.append("extend input %s { %s }" % (n, " ".join("%s: %s" % (f["name"], ty_sdl(f["ty"])) for f in fs)))
     for n, ms in ext["members"].items():
@@ -340,6 +374,8 @@ def ext_sdl(ext, schema):
     for d in ext["new_dirs"]:
         parts.append("directive @%s(%s) on %s" % (d["name"], ", ".join("%s: %s" % (a["name"], ty_sdl(a["ty"])) for a in d["args"]),
                                                   " | ".join(d["locs"])))
+    if wd.get("define"):
+        parts.append("directive @%s on FIELD_DEFINITION" % WRAPDIR)
     return "\n".join(parts)
 
 
@@ -348,6 +384,9 @@ def gen_step(rng, schema, i, src=0):
     r = rng.random()
     if src != 0 and r >= 0.92:
         r = 0.1            # (replace steps only on the source)
+    if src != 0 and WRAPDIR in schema.directives and rng.random() < 0.6:
+        # a second extension, with schema directives again, of a schema whose fields already carry an applied directive
+        return {"op": "extend", "src": src, "ext": gen_ext(rng, schema, i, force_wrapdir=True)}
     if r < 0.15:
         return {"op": "clone", "src": src}
     if r < 0.55:
@@ -468,9 +507,28 @@ def make_visitor(v, funcs):
     raise ValueError(v["k"])
 
 
+def make_wrap_directive(wd, funcs):
+    """The implementation of `@c14wrap`: what a resolver-wrapping SchemaDirective does (`definition` by name: the directive is
+    defined in the schema / the extension document)."""
+    from py_gql.schema import Field
+    from py_gql.sdl import SchemaDirective
+
+    class Wrap(SchemaDirective):
+        definition = WRAPDIR
+
+        def on_field(self, f):
+            inner = f.resolver
+            fn = funcs.make(lambda *a, **kw: (inner or W.universal_resolver)(*a, **kw))
+            wd["wrap_ids"].setdefault(f.name, []).append(fn._vid)
+            return Field(f.name, f.type, args=f.arguments, description=f.description, deprecation_reason=f.deprecation_reason,
+                         resolver=fn, subscription_resolver=f.subscription_resolver, node=f.node, python_name=f.python_name)
+    return Wrap
+
+
 def apply_step(step, schemas, funcs):
     """Run one step on the live schemas. Returns (result schema | None, 'ok' | 'rejected:<Class>' | 'internal:<Class>')."""
     from py_gql.exc import ExtensionError, SchemaError, SchemaValidationError, SDLError
+    from py_gql.schema import InterfaceType, ObjectType
     from py_gql.schema.transforms import transform_schema
     from py_gql.sdl import extend_schema
     src = schemas[step["src"]]
@@ -500,7 +558,15 @@ def apply_step(step, schemas, funcs):
             return c, "ok"
         if step["op"] == "extend":
             step["sdl"] = ext_sdl(step["ext"], src)
-            return extend_schema(src, step["sdl"]), "ok"
+            wd = step["ext"].get("wrapdir")
+            if wd is None:
+                return extend_schema(src, step["sdl"]), "ok"
+            # fields of the schema being extended whose parse node carries the directive: it was applied when they were added
+            step["already_wrapped"] = sorted(
+                "%s.%s" % (n, f.name) for n, t in src.types.items() if isinstance(t, (ObjectType, InterfaceType)) and not n.startswith("__")
+                for f in t.fields if f.node is not None and any(d.name.value == WRAPDIR for d in f.node.directives))
+            wd["wrap_ids"] = {}
+            return extend_schema(src, step["sdl"], schema_directives=[make_wrap_directive(wd, funcs)]), "ok"
         if step["op"] == "replace":
             c = src.clone()
             d = {}
@@ -688,7 +754,12 @@ def check_result(step, src_world, world, ri, fail):
                     if k == "res" and where in wrapped:
                         exp = wrapped[where]
                     if exp != g[k]:
-                        fail("preserved:%s:field:%s" % (op, k), "%s: %s %r -> %r" % (where, k, exp, g[k]))
+                        if k == "res" and op == "extend" and where in step.get("already_wrapped", []):
+                            fail("preserved:extend:field:schema-directive-applied-again",
+                                 "%s carries @%s, applied when the field was added; extend_schema(…, schema_directives=…) with an "
+                                 "extension that does not mention it applied the directive AGAIN: resolver #%s -> #%s" % (where, WRAPDIR, exp, g[k]))
+                        else:
+                            fail("preserved:%s:field:%s" % (op, k), "%s: %s %r -> %r" % (where, k, exp, g[k]))
                 if _ty_str(f["ty"]) != _ty_str(g["ty"]):
                     fail("preserved:%s:field:type" % op, "%s: type %s -> %s" % (where, _ty_str(f["ty"]), _ty_str(g["ty"])))
                 cmp_args(where, "argument", [so[a] for a in f["args"]], [ro[a] for a in g["args"]])
@@ -795,6 +866,26 @@ def _to_string(schema):
         return "exc:" + type(e).__name__
 
 
+def check_leaf_behaviour(step, src, res, fail):
+    """A custom scalar / enum the step did not remove is an object of the same Python class and serializes / parses alike."""
+    from py_gql.schema import EnumType, ScalarType
+    for name, t in src.types.items():
+        r = res.types.get(name)
+        if name.startswith("__") or r is None or not isinstance(t, (ScalarType, EnumType)):
+            continue
+        kind = "scalar" if isinstance(t, ScalarType) else "enum"
+        if type(r) is not type(t):
+            fail("preserved:%s:%s:class" % (step["op"], kind), "%s %s was an instance of %s, the result registers an instance of %s"
+                 % (kind, name, type(t).__name__, type(r).__name__))
+        elif kind == "scalar" and name not in W.SCALARS:
+            try:
+                a, b = (t.serialize("v"), t.parse("v")), (r.serialize("v"), r.parse("v"))
+            except Exception:  # noqa
+                continue
+            if a != b:
+                fail("preserved:%s:scalar:behaviour" % step["op"], "scalar %s serializes / parses 'v' as %r, in the result as %r" % (name, a, b))
+
+
 def track_registered(step, tracked_src, res, fail):
     """The resolvers REGISTERED on the source (through `register_resolver` / `register_subscription`) followed through the
     chain of derivations: {(type, current field name): (id, attribute)}. A field that is still there must still CARRY the
@@ -820,6 +911,90 @@ def track_registered(step, tracked_src, res, fail):
             continue
         out[(t, f2)] = (vid, attr)
     return out
+
+
+def directive_cases(ctx, source, funcs, rng, fail):
+    """Two uses of schema directives / visitors checked by the direct oracle only (no model step):
+    (1) a SchemaDirective whose `definition` is given INLINE and whose arguments use types the schema does not know;
+    (2) a visitor that removes an enum value some default value names."""
+    from py_gql.exc import SchemaError, SDLError
+    from py_gql.schema import (Argument, Directive, EnumType, InputField, InputObjectType, InterfaceType, ObjectType,
+                               SchemaVisitor)
+    from py_gql.schema.transforms import transform_schema
+    from py_gql.sdl import SchemaDirective
+    from py_gql.sdl.schema_directives import apply_schema_directives
+    lvl = EnumType("C14Level", ["LOW", "HIGH"])
+    opts = InputObjectType("C14Opts", [InputField("level", lvl)])
+
+    class Inline(SchemaDirective):
+        definition = Directive("c14inline", ["FIELD_DEFINITION"],
+                               [Argument("level", lvl, default_value="LOW")] + ([Argument("opts", opts)] if rng.random() < 0.5 else []))
+    try:
+        r = apply_schema_directives(source.clone(), [Inline])
+        r.validate()
+    except (SchemaError, SDLError) as e:
+        r = None
+        fail("step-raises:schema-directive-inline-definition:%s" % type(e).__name__,
+             "apply_schema_directives with an inline directive definition raised %s: %s" % (type(e).__name__, e))
+    if r is not None:
+        ctx.count()
+        ctx.stat("directive-case:inline-definition")
+        bad = [b for b in W.closed_violations(r) if "directive argument" in b or "C14" in b]
+        if bad:
+            fail("closed:schema-directive-inline-definition:unregistered",
+                 "after applying a schema directive whose definition is given inline the schema is not closed: %s" % bad[0])
+        else:
+            types, dirs = W.introspect(r)
+            if types is None or "C14Level" not in types or "c14inline" not in (dirs or []):
+                fail("closed:schema-directive-inline-definition:introspection",
+                     "introspection does not list the directive given inline / the type of its argument")
+    # (2)
+    cands = []
+    for n, t in source.types.items():
+        if n.startswith("__"):
+            continue
+        members = []
+        if isinstance(t, (ObjectType, InterfaceType)):
+            members = [(n, f.name, a) for f in t.fields for a in f.arguments]
+        elif isinstance(t, InputObjectType):
+            members = [(n, None, f) for f in t.fields]
+        for tn, fn_, a in members:
+            from py_gql.schema import unwrap_type
+            b = unwrap_type(a.type)
+            if isinstance(b, EnumType) and a.has_default_value and isinstance(a.default_value, str) and len(b.values) > 1:
+                cands.append((b.name, a.default_value))
+    if not cands:
+        return
+    en, val = rng.choice(sorted(set(cands)))
+
+    class DropValue(SchemaVisitor):
+        def on_enum(self, e):
+            self._e = e.name
+            return super().on_enum(e)
+
+        def on_enum_value(self, v):
+            return None if (self._e == en and v.name == val) else v
+    try:
+        r = transform_schema(source, DropValue())
+    except Exception:  # noqa  (refusing the removal is one acceptable policy)
+        ctx.stat("directive-case:enum-value-removal:refused")
+        return
+    ctx.count()
+    ctx.stat("directive-case:enum-value-removal")
+    e = r.types.get(en)
+    if e is None or any(v.name == val for v in e.values):
+        return
+    from py_gql import graphql_blocking
+    from py_gql.utilities import introspection_query
+    try:
+        out = graphql_blocking(r, introspection_query()).response()
+        errs = out.get("errors")
+    except Exception as x:  # noqa
+        errs = "%s: %s" % (type(x).__name__, x)
+    if errs:
+        fail("hidden-reachable:enum-value:default:introspection",
+             "enum value %s.%s was removed by a visitor but a default value still names it: the introspection query fails with %s"
+             % (en, val, str(errs)[:200]))
 
 
 def one_sequence(ctx, seed_note, size, n_steps, steps=None, build_seed=None):
@@ -862,6 +1037,9 @@ def one_sequence(ctx, seed_note, size, n_steps, steps=None, build_seed=None):
             break
         if lazy:
             src_i = rng.choice(chainable) if chainable and rng.random() < 0.4 else 0
+            wrapped_ones = [k for k in chainable if WRAPDIR in schemas[k].directives]
+            if wrapped_ones and rng.random() < 0.5:
+                src_i = wrapped_ones[-1]
             step = gen_step(rng, schemas[src_i], i, src_i)
         else:
             step = copy.deepcopy(steps[i])
@@ -894,6 +1072,9 @@ def one_sequence(ctx, seed_note, size, n_steps, steps=None, build_seed=None):
             targets = list(e["fields"]) + list(e["input_fields"]) + list(e["members"]) + list(e["values"])
             if any(t in W.RARE_TYPE_NAMES for t in targets):
                 ctx.stat("extend:block-on-a-type-with-a-rare-name:%s" % status.split(":")[0])
+            if e.get("wrapdir") is not None:
+                ctx.stat("extend:schema_directives:%d-new-fields-carry-it:%d-source-fields-carry-it:%s" % (
+                    len(e["wrapdir"]["targets"]), min(len(step.get("already_wrapped", [])), 3), status.split(":")[0]))
             if any(t["name"].startswith("_") for t in e["new_types"]):
                 ctx.stat("extend:new-names-with-a-leading-underscore:%s" % status.split(":")[0])
         found = []
@@ -996,6 +1177,7 @@ def one_sequence(ctx, seed_note, size, n_steps, steps=None, build_seed=None):
             closed_check("right after the step")
             world = W.canon(dumper.dump([cur, res]))
             check_result(step, cur_world, world, 1, fail)
+            check_leaf_behaviour(step, cur, res, fail)
             tracked.append(track_registered(step, tracked[si], res, fail))
             tracked_sub.append(track_registered(step, tracked_sub[si], res, fail))
             if step["op"] != "replace":
@@ -1014,7 +1196,13 @@ def one_sequence(ctx, seed_note, size, n_steps, steps=None, build_seed=None):
                 ctx.stat("chain:registered-resolver-followed-through-two-derivations")
             closed_check("after using the result")
             if not isinstance(rq, dict):
-                fail("result-unusable:query:%s" % step["op"], "coverage query on the result raised %s" % rq)
+                msg = W.LAST_EXC[0]
+                if rq == "exc:RuntimeError" and "is not a possible type" in msg:
+                    fail("result-unusable:runtime-type-object-of-another-schema:%s" % step["op"],
+                         "a real query on the result raised %s (a type resolver of the source returns the ObjectType object, "
+                         "which is not the object the derived schema registers under that name)" % msg[:200])
+                else:
+                    fail("result-unusable:query:%s" % step["op"], "coverage query on the result raised %s" % (msg[:200] or rq))
             elif [m for m in rq.get("errors", []) if not m.endswith("is not nullable")] and isinstance(cur_q, dict) and not cur_q.get("errors"):
                 # ("is not nullable" = the harness' resolver has no possible object left for an abstract type: not a defect)
                 fail("result-unusable:query-errors:%s" % step["op"], "coverage query (fragments on every possible type) on the result reports %s"
@@ -1031,9 +1219,21 @@ def one_sequence(ctx, seed_note, size, n_steps, steps=None, build_seed=None):
                 step.setdefault("failed", []).append(sig)
             failures += new
             # a step that raised (nothing derived, the frame checks passed) or only lost registry entries: the sequence goes on
-            if not all(sig.startswith("registry:") or (sig.startswith("step-raises:") and res is None) for sig, _ in found):
+            if not all(sig.startswith(("registry:", "result-unusable:runtime-type-object-of-another-schema:"))
+                       or (sig.startswith("step-raises:") and res is None) for sig, _ in found):
                 break
-    if not any(not (sig.startswith("registry:") or sig.startswith("step-raises:")) for sig, _ in failures):
+    hard = any(not sig.startswith(("registry:", "step-raises:", "result-unusable:runtime-type-object-of-another-schema:")) for sig, _ in failures)
+    if not hard and not ctx.out_of_time() and (seed % 2 == 0 or not lazy):
+        extra = []
+
+        def fail_extra(sig, what):
+            if not any(s0 == sig for s0, _ in failures + extra):
+                extra.append((sig, what))
+        directive_cases(ctx, source, funcs, random.Random(seed ^ 0xD1EC), fail_extra)
+        if W.dump_differs(dumper, source, base_raw):
+            fail_extra("frame:source-modified:schema-directive-case", "the source changed while schema directives were applied to a clone of it")
+        failures += extra
+    if not hard:
         # (at the END of the sequence: the registrations on these extra clones must not interfere with the steps above)
         cfg_now = getattr(ctx, "_c14_cfg", None)
         cases = [("clone", source, "source")]
@@ -1065,7 +1265,15 @@ def to_model_request(base_world, steps, cfg):
                 vs.append(v2)
             m["visitors"] = vs
         if s["op"] == "extend":
-            m["ext"] = s["ext"]
+            m["ext"] = ext = copy.deepcopy(s["ext"])
+            wd = ext.pop("wrapdir", None)
+            if wd is not None:
+                for tn, fn_ in wd["targets"]:
+                    for f in ext["fields"].get(tn, []):
+                        if f["name"] == fn_ and wd.get("wrap_ids", {}).get(fn_):
+                            f["res"] = wd["wrap_ids"][fn_][-1]
+                if wd["define"]:
+                    ext["new_dirs"] = ext["new_dirs"] + [{"name": WRAPDIR, "args": [], "locs": ["FIELD_DEFINITION"]}]
         if s["op"] == "replace":
             m["entries"] = s["entries"]
         msteps.append(m)
@@ -1081,7 +1289,7 @@ def run(ctx):
     ctx.extra["code_variant"] = cfg
     ctx._c14_cfg = cfg
     ctx._c14_reg_cases = []
-    n_seq = ctx.n(48, 500)
+    n_seq = ctx.n(40, 420)
     budget_each = 0.8
     batch = []
     seen_sigs = set()
@@ -1107,6 +1315,11 @@ def run(ctx):
             rec = shrink(ctx, cut, sig) if sig not in seen_sigs else cut
             seen_sigs.add(sig)
             ctx.fail(sig, what, rec)
+        if any("preserved:extend:field:schema-directive-applied-again" in st.get("failed", []) for st in record["steps"]):
+            # (the model applies the schema directives of an extension to the fields the extension adds; a run in which the code
+            #  applied them to source fields AGAIN — reported above by the direct oracle — is not compared object by object)
+            ctx.stat("corr:not-compared:schema-directive-applied-again")
+            msteps = []
         if cfg is not None and ctx.model_ok and msteps:
             try:
                 impl = W.canon(dumper.dump(schemas))
